@@ -162,7 +162,14 @@ func sum(xs []int) int {
 func genUsers(r *simnet.Rng, n int) []spec.User {
 	var us []spec.User
 	for i := 0; i < n; i++ {
-		us = append(us, spec.User{Name: fmt.Sprintf("user%d-%x", i, r.Intn(1<<16)), Password: fmt.Sprintf("pw-%x-%d", r.U64(), i)})
+		name := fmt.Sprintf("user%d-%x", i, r.Intn(1<<16))
+		if r.Bool(0.3) {
+			// names up to the documented maximum of 64 bytes (the user hint hashes name || nonce[:16])
+			for l := r.Pick(47, 48, 49, 50, 63, 64, 12+r.Intn(52)); len(name) < l; {
+				name += string(rune('a' + len(name)%26))
+			}
+		}
+		us = append(us, spec.User{Name: name, Password: fmt.Sprintf("pw-%x-%d", r.U64(), i)})
 	}
 	return us
 }
